@@ -133,6 +133,22 @@ def render(beh):
     return src, expected
 
 
+def sample_sources(check, tier, n):
+    """rendered files of matrix D (several namespace sections of both forms, imports, declarations, references with
+    colliding short names) for checks that need resolver-heavy inputs (C11, C13)"""
+    behs = behaviours(check, sorted(SITES), NAMES, ["unq", "qual", "fq", "rel"], 3, 4, 3, "matrix D as input pool (simulated)",
+                      simulate=3000 if tier == "quick" else 40000)
+    seen, out = set(), []
+    for b in behs:
+        src = render(b)[0]
+        if src not in seen:
+            seen.add(src)
+            out.append(src)
+    rng = random.Random(core.seed())
+    rng.shuffle(out)
+    return out[:n]
+
+
 def run_matrix(check, wp, behs, label):
     tasks, exps = [], []
     for b in behs:
